@@ -192,6 +192,16 @@ def build_impl(variant="san", tools=False):
     return res
 
 # ---------------------------------------------------------------------------------------------- running
+_SCRATCH = None
+def scratch_root():
+    """private scratch directory of this check run (outside /repo and /verif), removed at exit"""
+    global _SCRATCH
+    if _SCRATCH is None:
+        import tempfile, atexit
+        _SCRATCH = tempfile.mkdtemp(prefix="cdnsverif.")
+        atexit.register(lambda: shutil.rmtree(_SCRATCH, ignore_errors=True))
+    return _SCRATCH
+
 def _unlimit_stack():
     try:
         resource.setrlimit(resource.RLIMIT_STACK, (resource.RLIM_INFINITY, resource.RLIM_INFINITY))
@@ -204,9 +214,15 @@ SAN_ENV = {"ASAN_OPTIONS": "detect_leaks=0:abort_on_error=0:allocator_may_return
 def run_exec(exe, script, timeout=900, env_extra=None, model=False):
     env = dict(os.environ); env.update(SAN_ENV)
     if env_extra: env.update(env_extra)
+    pre = _unlimit_stack if model else None
+    if not model and env.get("DRV_STACK_KB"):
+        kb = int(env["DRV_STACK_KB"])
+        def pre():
+            resource.setrlimit(resource.RLIMIT_STACK, (kb * 1024, kb * 1024))
+    if not model and "DRV_SCRATCH" not in env:
+        env["DRV_SCRATCH"] = scratch_root()
     p = subprocess.run([exe], input=script, stdout=subprocess.PIPE, stderr=subprocess.PIPE, timeout=timeout,
-                       universal_newlines=True, errors="replace", env=env,
-                       preexec_fn=_unlimit_stack if model else None)
+                       universal_newlines=True, errors="replace", env=env, preexec_fn=pre)
     return p.returncode, p.stdout, p.stderr
 
 def split_cases(out):
@@ -219,7 +235,7 @@ def split_cases(out):
             res[cur].append(l)
     return res
 
-def run_both(cases, drv, mdl, batch=400, timeout=900, canon=None, impl_env=None):
+def run_both(cases, drv, mdl, batch=400, timeout=900, canon=None, impl_env=None, impl_only=False):
     """cases: list of (id, [script lines]).  Returns (impl: id->lines, model: id->lines, crashes: list)."""
     impl, model, crashes = {}, {}, []
     def chunk(lst, n):
@@ -228,7 +244,7 @@ def run_both(cases, drv, mdl, batch=400, timeout=900, canon=None, impl_env=None)
     def run_batch(b):
         script = "".join("CASE %s\n%s\n" % (cid, "\n".join(lines)) for cid, lines in b)
         rc_i, out_i, err_i = run_exec(drv, script, timeout, impl_env)
-        rc_m, out_m, err_m = run_exec(mdl, script, timeout, model=True)
+        rc_m, out_m, err_m = (0, out_i, "") if impl_only else run_exec(mdl, script, timeout, model=True)
         return b, rc_i, out_i, err_i, rc_m, out_m, err_m
     with ThreadPoolExecutor(max_workers=NPROC) as ex:
         for b, rc_i, out_i, err_i, rc_m, out_m, err_m in ex.map(run_batch, batches):
@@ -319,3 +335,54 @@ TRUSTED_BASE_COMMON = [
     "extraction: ExtrOcamlBasic only (Extract Inductive bool/option/unit/list/prod/sumbool/sumor, Extract Inlined Constant andb/orb); OCaml 4.13.1; harness/ocaml/*.ml glue",
     "g++ 12.2 -std=c++14 -msse4 with ASan/UBSan; Python orchestrator, generators and oracles under harness/py",
 ]
+
+# ---------------------------------------------------------------------------------------------- expected-lines cases
+def run_expect(ctx, cases, batch=200, impl_env=None, canon=None, timeout=900, impl_only=False):
+    """cases: list of dicts {id, script: [lines], expect: [line or None per result line] or None, meta: {...}}.
+    Runs every script through both executors; returns (diffs, fails) in the shape ./check wants:
+      diffs: model and implementation disagree;  fails: the implementation contradicts the ground truth (oracle)."""
+    scripts = [(c["id"], c["script"]) for c in cases]
+    impl, model, crashes = run_both(scripts, ctx["impl"]["drv"], ctx["mdl"], batch=batch, impl_env=impl_env, canon=canon, timeout=timeout, impl_only=impl_only)
+    if impl_only: model = impl
+    diffs, fails = [], []
+    for c in cases:
+        il, ml = impl.get(c["id"], ["<missing>"]), model.get(c["id"], ["<missing>"])
+        exp = c.get("expect")
+        if exp is not None:
+            why = None
+            for k, e in enumerate(exp):
+                if e is None: continue
+                got = il[k] if k < len(il) else "<no output>"
+                if got != e:
+                    why = "%s: result %d of %r is %r, expected %r" % (c.get("what", "ground truth violated"), k,
+                                                                    (c["script"][k] if k < len(c["script"]) else "?")[:60], got[:120], e[:120])
+                    break
+            if why is None and any(l.startswith("CRASH") for l in il):
+                why = "%s: %s" % (c.get("what", "crash"), [l for l in il if l.startswith("CRASH")][0][:200])
+            if why: fails.append((c["id"], c, why, il))
+        elif any(l.startswith("CRASH") for l in il):
+            fails.append((c["id"], c, "implementation crashed: " + [l for l in il if l.startswith("CRASH")][0][:200], il))
+        if il != ml:
+            k = next((j for j in range(min(len(il), len(ml))) if il[j] != ml[j]), min(len(il), len(ml)))
+            diffs.append((c["id"], c, "result %d (%s): impl %r vs model %r" % (k, (c["script"][k] if k < len(c["script"]) else "?")[:50],
+                                                                            il[k][:100] if k < len(il) else None, ml[k][:100] if k < len(ml) else None)))
+    return diffs, fails
+
+def case_script(c):
+    s = c["script"] if isinstance(c, dict) else c
+    return [l if len(l) < 600 else l[:600] + "...(%d chars)" % len(l) for l in s]
+
+def summarize_cov(rep, cases, rule, diffs, fails, nontrivial=None):
+    kinds = {}
+    distinct = set()
+    for c in cases:
+        k = c.get("meta", {}).get("kind", "?"); kinds[k] = kinds.get(k, 0) + 1
+        if nontrivial is None or nontrivial(c): distinct.add("\n".join(c["script"]))
+    rep.cov["evaluations"] = len(cases)
+    rep.cov["distinct_nontrivial"] = len(distinct)
+    rep.cov["rule"] = rule
+    rep.cov["distribution"] = kinds
+    idx = sorted(set([0, len(cases) // 3, len(cases) // 2, len(cases) - 1]))
+    rep.cov["samples"] = [{"id": cases[i]["id"], "script": case_script(cases[i])[:12], "expect": (cases[i].get("expect") or [])[:12]} for i in idx if cases]
+    rep.cov["correspondence_differences"] = len(diffs)
+    rep.cov["oracle_failures"] = len(fails)
